@@ -8,6 +8,7 @@ import (
 	"math"
 	"path/filepath"
 	"strconv"
+	"strings"
 
 	"github.com/octohelm/gengo/pkg/gengo"
 	"github.com/octohelm/gengo/pkg/gengo/snippet"
@@ -81,6 +82,14 @@ func (g *core) render(c gengo.Context, parts []proto.Part) {
 			}
 		case p.State == "inst-count":
 			c.Render(snippet.Block(p.Text + strconv.Itoa(st.seen)))
+		case p.Tmpl != "":
+			args := snippet.Args{}
+			for name, ref := range p.TArgs {
+				args[name] = snippet.ID(ref)
+			}
+			c.Render(snippet.T(p.Tmpl, args))
+		case p.DocRef != "":
+			c.Render(snippet.Block(docComment(c, p.DocRef)))
 		case p.Ref != "":
 			c.Render(snippet.ID(p.Ref))
 		case p.Value != "":
@@ -102,6 +111,22 @@ func (g *core) render(c gengo.Context, parts []proto.Part) {
 			c.Render(snippet.Block(p.Text))
 		}
 	}
+}
+
+// docComment reads the documentation of a type of any loaded package through the public API, the
+// way a generator that documents field types would.
+func docComment(c gengo.Context, ref string) string {
+	i := strings.LastIndex(ref, ".")
+	pkg := c.Package(ref[:i])
+	if pkg == nil {
+		return "\n// DOC <no package>\n"
+	}
+	tn := pkg.Type(ref[i+1:])
+	if tn == nil {
+		return "\n// DOC <no type>\n"
+	}
+	_, lines := pkg.Doc(tn.Pos())
+	return "\n// DOC " + strings.Join(lines, " | ") + "\n"
 }
 
 func (g *core) apply(c gengo.Context, kind string, obj *types.TypeName, rules map[string]proto.Rule) error {
